@@ -22,6 +22,9 @@ type Val struct {
 	Enum     string `json:"enum,omitempty"` // enumstr
 	Optional bool   `json:"optional,omitempty"`
 	Obj      *Obj   `json:"obj,omitempty"`
+	// Wrap: arrobj only - number of further arrays around the array of objects
+	// (1 = [[ {...} ]]).
+	Wrap int `json:"wrap,omitempty"`
 }
 
 type Prop struct {
